@@ -20,6 +20,7 @@ import VaxisModel.Lemmas.VxfwBodyFocus
 import VaxisModel.Lemmas.VxfwBodyHover
 import VaxisModel.Lemmas.VxfwBodyX
 import VaxisModel.Lemmas.VxfwBodyRun
+import VaxisModel.Lemmas.VxfwBodyTree
 import VaxisModel.Props.C15
 import VaxisModel.Props.C15Err
 
@@ -28,13 +29,16 @@ open VaxisModel.Model VaxisModel.Model.GoSyn VaxisModel.Model.Vxfw VaxisModel.Mo
 open VaxisModel.Model.DynExec (parseBody)
 open VaxisModel.Spec.Routing VaxisModel.Lemmas.Vxfw
 
-/-- The translator recognised every statement and expression of the eight handler bodies (round 4: also
-    `mouseHandler.update` with its labelled `continue`s and `App.handleCommand` with its type switch). -/
+/-- The translator recognised every statement and expression of the twelve translated bodies (round 4: also
+    `mouseHandler.update` with its labelled `continue`s, `App.handleCommand` with its type switch, and the tree walks
+    `hitTest`, `containsPoint`, `childHasFocus`, `findPath`). -/
 theorem fully_recognised :
     (fullyRecognised Gen.VxfwBodies.focusHandleEvent && fullyRecognised Gen.VxfwBodies.mouseHandleEvent &&
      fullyRecognised Gen.VxfwBodies.focusWidget && fullyRecognised Gen.VxfwBodies.updatePath &&
      fullyRecognised Gen.VxfwBodies.mouseExit && fullyRecognised Gen.VxfwBodies.mouseEnter &&
-     fullyRecognised Gen.VxfwBodies.mouseUpdate && fullyRecognised Gen.VxfwBodies.handleCommand) = true := by decide
+     fullyRecognised Gen.VxfwBodies.mouseUpdate && fullyRecognised Gen.VxfwBodies.handleCommand &&
+     fullyRecognised Gen.VxfwBodies.hitTest && fullyRecognised Gen.VxfwBodies.containsPoint &&
+     fullyRecognised Gen.VxfwBodies.childHasFocus && fullyRecognised Gen.VxfwBodies.findPath) = true := by decide
 
 /-- The regenerated body of `focusHandler.handleEvent` is the one the execution lemmas are about. -/
 theorem body_as_expected : Gen.VxfwBodies.focusHandleEvent = Lemmas.VxfwBodyExpected.focusHandleEvent := by decide +kernel
@@ -285,5 +289,53 @@ theorem hover_closed_bodies (o : Oracle) (fuel : Nat) (root : Id) (t0 : STree) (
   · show runMouseExit (parseBody Gen.VxfwBodies.mouseExit) (e0 o) (fuel + 1) _ = _
     rw [mouse_exit_body_eq_model]
     exact congrArg some (Lemmas.Vxfw.eRunEvent_noerr o (fuel + 1) _ .focusOut)
+
+/-! ## Round 4: the tree walks `hitTest`, `containsPoint`, `childHasFocus` executed from their bodies -/
+
+/-- The regenerated bodies of `hitTest`, `SubSurface.containsPoint`, `focusHandler.childHasFocus` are the ones the execution
+    lemmas are about. -/
+theorem tree_bodies_as_expected : Gen.VxfwBodies.hitTest = Lemmas.VxfwBodyExpected.hitTest ∧
+    Gen.VxfwBodies.containsPoint = Lemmas.VxfwBodyExpected.containsPoint ∧
+    Gen.VxfwBodies.childHasFocus = Lemmas.VxfwBodyExpected.childHasFocus := by decide +kernel
+
+/-- **`SubSurface.containsPoint`, executed from its regenerated body** (one boolean expression over the receiver's origin and
+    size and the two arguments) **is the model's `containsPoint`**, for every sub-surface and point. -/
+theorem contains_point_body_eq_model (k : Kid) (col row : Int) :
+    VxfwInterpTree.runContainsPoint Gen.VxfwBodies.containsPoint k col row =
+      some (containsPoint k.1 k.2.1 k.2.2.2.w k.2.2.2.h col row) := by
+  rw [tree_bodies_as_expected.2.1]
+  exact Lemmas.VxfwBodyTree.cp_run k col row
+
+/-- **`hitTest`, executed from its regenerated body, IS the model's `hitTest`** (appended to the `hits` argument): the hit
+    result `{col, row, s.Widget}` first, then for every child IN SLICE ORDER whose sub-surface contains the point (the executed
+    `containsPoint` body) the hits of the child's surface at the local coordinates `col - uint16(origin.Col)`,
+    `row - uint16(origin.Row)` computed in `uint16` (wrap-around at 65536 — also for negative origins), recursively to any depth.
+    Every surface tree, point and accumulated list.  So `hit_list_is_under` / `hit_chain` / `mouse_routing` (deepest widget
+    containing the point = last hit = target) speak about the executed hit test. -/
+theorem hit_test_body_eq_model (t : STree) (hits : List Hit) (col row : Int) :
+    VxfwInterpTree.runHitTest (parseBody Gen.VxfwBodies.hitTest) Gen.VxfwBodies.containsPoint t hits col row =
+      some (hits ++ hitTest t col row) := by
+  rw [tree_bodies_as_expected.1, tree_bodies_as_expected.2.1, Lemmas.VxfwBodyTree.parse_ht]
+  exact Lemmas.VxfwBodyTree.ht_run t hits col row
+
+/-- **`focusHandler.childHasFocus`, executed from its regenerated body, IS the model's `childHasFocus`**: it returns true iff
+    the focused widget is drawn in the surface tree, and then has appended to `f.path` the chain from the FIRST surface (depth
+    first, children in slice order) of the focused widget up to the surface it was called on (target first — `findPath`
+    reverses it); it appends nothing when it returns false.  Every tree, focused widget and initial path. -/
+theorem child_has_focus_body_eq_model (f : Id) (path : List Id) (t : STree) :
+    VxfwInterpTree.runChildHasFocus (parseBody Gen.VxfwBodies.childHasFocus) f path t =
+      some (path ++ (childHasFocus f t).getD [], (childHasFocus f t).isSome) := by
+  rw [tree_bodies_as_expected.2.2, Lemmas.VxfwBodyTree.parse_ch]
+  exact Lemmas.VxfwBodyTree.ch_run f path t
+
+/-- Non-vacuity: a child at a NEGATIVE origin (-3,-3) containing the point (1,1): the executed body computes the local
+    coordinates in `uint16` (1 - 65533 wraps to 4); a grandchild; a child not containing the point is skipped; and the focus
+    path of widget 2 (drawn inside 1 inside 0), appended target first. -/
+example :
+    let t : STree := .node 0 10 10 [(1, 1, 0, .node 1 5 5 [(0, 0, 0, .node 2 2 2 [])]), (5, 5, 1, .node 3 3 3 []), (-3, -3, 0, .node 4 5 5 [])]
+    (VxfwInterpTree.runHitTest (parseBody Gen.VxfwBodies.hitTest) Gen.VxfwBodies.containsPoint t [] 1 1).map
+        (·.map (fun h => (h.col, h.row, h.w))) = some [(1, 1, 0), (0, 0, 1), (0, 0, 2), (4, 4, 4)] ∧
+    VxfwInterpTree.runChildHasFocus (parseBody Gen.VxfwBodies.childHasFocus) 2 [] t = some ([2, 1, 0], true) ∧
+    VxfwInterpTree.runChildHasFocus (parseBody Gen.VxfwBodies.childHasFocus) 9 [7] t = some ([7], false) := by decide +kernel
 
 end VaxisModel.Props.C15Body
